@@ -15,6 +15,9 @@ def step (_ : Unit) (ws : List String) : Unit × String :=
   | ["hook", m, _argc, p, f] => ((), Hook.answer (parsePath p) m (f == "1"))
   | ["!hook", m, _argc, p] =>
     if Hook.entryPoints.contains m then ((), Hook.specAnswer (parsePath p) m) else ((), "bad-op")
+  | ["stack", d, m, _argc, p] => ((), Hook.stackAnswer (d.toNat?.getD 1) (parsePath p) m)
+  | ["!stack", d, m, _argc, p] =>
+    if Hook.entryPoints.contains m then ((), Hook.specStackAnswer (d.toNat?.getD 1) (parsePath p) m) else ((), "bad-op")
   | _ => ((), "bad-op")
 
 def main : IO Unit := Hex.lineLoop () step
